@@ -157,34 +157,27 @@ theorem dictTail_flags (cfg : Cfg) (fl' : Flags) (p : Path) (sa oa : Val) (skvs 
       (dictTail (cfg.withFlags fl') p sa oa skvs okvs still) :=
   coreEq_lists_only rfl rfl rfl rfl rfl rfl rfl
 
-theorem recordKey_flags (cfg : Cfg) (fl' : Flags) (p : Path) (kvs : List (Str × Val)) :
-    ∀ (ks : List Str) (acc : Str), recordKey (cfg.withFlags fl') p kvs ks acc = recordKey cfg p kvs ks acc
+theorem recordFields_flags (cfg : Cfg) (fl' : Flags) (q : Path) (kvs : List (Str × Val)) :
+    ∀ (ks : List Str) (acc : List (Str × Val)),
+      recordFields (cfg.withFlags fl') q kvs ks acc = recordFields cfg q kvs ks acc
   | [], acc => rfl
   | key :: rest, acc => by
-    simp only [recordKey]
+    simp only [recordFields]
     cases Val.lookup key kvs with
-    | none => exact recordKey_flags cfg fl' p kvs rest acc
-    | some v =>
-      simp only [Cfg.withFlags]
-      split
-      · exact recordKey_flags cfg fl' p kvs rest _
-      · split
-        · rfl
-        · split
-          · exact recordKey_flags cfg fl' p kvs rest _
-          · rfl
+    | none => exact recordFields_flags cfg fl' q kvs rest acc
+    | some v => exact recordFields_flags cfg fl' q kvs rest _
 
-theorem keyOf_flags (cfg : Cfg) (fl' : Flags) (p : Path) (v : Val) :
-    keyOf (cfg.withFlags fl') p v = keyOf cfg p v := by
+theorem keyOf_flags (cfg : Cfg) (fl' : Flags) (p : Path) (i : Nat) (v : Val) :
+    keyOf (cfg.withFlags fl') p i v = keyOf cfg p i v := by
   cases v <;> simp only [keyOf] <;> try rfl
   rename_i c kvs
-  simp only [recordKey_flags]
+  simp only [recordFields_flags]
   rfl
 
 theorem keysOf_flags (cfg : Cfg) (fl' : Flags) (p : Path) :
-    ∀ xs : List Val, keysOf (cfg.withFlags fl') p xs = keysOf cfg p xs
-  | [] => rfl
-  | x :: xs => by simp only [keysOf, keyOf_flags, keysOf_flags cfg fl' p xs]
+    ∀ (i : Nat) (xs : List Val), keysOf (cfg.withFlags fl') p i xs = keysOf cfg p i xs
+  | _, [] => rfl
+  | i, x :: xs => by simp only [keysOf, keyOf_flags, keysOf_flags cfg fl' p (i + 1) xs]
 
 /-! two-sided sequencing -/
 
@@ -248,10 +241,10 @@ theorem sub_flags (cfg : Cfg) (fl' : Flags) (site : Site) (p : Path) (v w : Val)
           · exact coreEq_refl_empty _ _
           · split
             · exact directWalk_flags cfg fl' p _ _ 0 xs ys
-            · cases keysOf cfg p xs with
+            · cases keysOf cfg p 0 xs with
               | error e => exact rfl
               | ok ks =>
-                cases keysOf cfg p ys with
+                cases keysOf cfg p 0 ys with
                 | error e => exact rfl
                 | ok ko => exact keyedWalk_flags cfg fl' p _ _ 0 xs ks _ _
     | _ => simp [sub, RelE]
